@@ -57,6 +57,11 @@ func ident(r record.Record) (key, token, kind string, score int, tag string) {
 	case *Rec:
 		return v.DatabaseKey(), v.Token, "rec", v.Score, v.Tag
 	case *record.Wrapper:
+		if wi, ok := wrapTokens.Load(v); ok {
+			// a wrapper the harness wrote itself (any dsd format, possibly no data)
+			w := wi.(*wrapInfo)
+			return v.DatabaseKey(), w.token, "wrap-" + w.format, w.score, w.tag
+		}
 		var t struct {
 			Token string
 			Score int
@@ -102,6 +107,16 @@ func newWorld(sc *Scenario) (*world, error) {
 			StorageType: sc.Backend, ShadowDelete: sc.Shadow})
 		if err != nil {
 			return nil, err
+		}
+		if sc.Class != "firstuse" {
+			// start the database (create its controller) before anything runs
+			// concurrently: getController does not re-check its map after taking the
+			// write lock, so concurrent *first* uses of a database create several
+			// controllers and all but the last are orphaned together with their
+			// subscriptions. That defect is exercised, under its own signature class,
+			// by the class "firstuse" only; everywhere else it would show up as a
+			// rare, unattributable missing delivery.
+			_, _ = database.NewInterface(&database.Options{Local: true, Internal: true}).Exists(w.db + ":warm-up")
 		}
 	case "injected":
 		_, err := database.Register(&database.Database{Name: w.db, Description: "C14 injected", StorageType: database.StorageTypeInjected})
@@ -466,4 +481,58 @@ func (g *gate) wait(n int) {
 		g.c.Wait()
 	}
 	g.mu.Unlock()
+}
+
+// wrapTokens identifies the record.Wrapper objects the harness writes (putwrap):
+// their data may be in a format without accessor, raw bytes or empty, so the token
+// cannot be read back from the data. Keyed by the wrapper pointer (storages and
+// feeds hand the written object through).
+var wrapTokens sync.Map
+
+type wrapInfo struct {
+	token, format, tag string
+	score              int
+}
+
+// newWrapper builds a wrapped record whose payload carries token/score/tag in the
+// given dsd format.
+func newWrapper(db, key, token string, score int, tag, format string) (*record.Wrapper, error) {
+	payload := struct {
+		Token string
+		Score int
+		Tag   string
+	}{token, score, tag}
+	var f uint8
+	var data []byte
+	switch format {
+	case "json":
+		f = dsd.JSON
+	case "cbor":
+		f = dsd.CBOR
+	case "msgpack":
+		f = dsd.MsgPack
+	case "yaml":
+		f = dsd.YAML
+	case "raw":
+		f, data = dsd.RAW, []byte("raw:"+token)
+	case "gencode":
+		f, data = dsd.GenCode, []byte{1, 2, 3, 4, byte(len(token))}
+	case "empty":
+		f = dsd.JSON
+	default:
+		return nil, fmt.Errorf("unknown wrapper format %q", format)
+	}
+	if data == nil && format != "empty" {
+		d, err := dsd.Dump(&payload, f)
+		if err != nil {
+			return nil, err
+		}
+		data = d[1:] // without the one-byte format identifier
+	}
+	w, err := record.NewWrapper(db+":"+key, &record.Meta{}, f, data)
+	if err != nil {
+		return nil, err
+	}
+	wrapTokens.Store(w, &wrapInfo{token: token, format: format, score: score, tag: tag})
+	return w, nil
 }
